@@ -21,7 +21,7 @@ ASSUMPTIONS = ['Twisted: an exception out of dataReceived drops that connection 
                'reference codec/receiver ref/*.py decide which write requests the hostile bytes really contain']
 STUBS = sc.STUBS
 
-KINDS_HOSTILE = ['random', 'trunc_pdu', 'long_pdu', 'inconsistent', 'mbap_len', 'subfunc', 'zero_pdu', 'mutate', 'valid']
+KINDS_HOSTILE = ['random', 'trunc_pdu', 'long_pdu', 'inconsistent', 'mbap_len', 'subfunc', 'zero_pdu', 'mutate', 'valid', 'service']
 
 
 def hostile_item(rng, kind, framing, unit, model, uniq):
@@ -33,6 +33,10 @@ def hostile_item(rng, kind, framing, unit, model, uniq):
         return bytes(rng.randrange(256) for _ in range(rng.choice([1, 2, 5, 7, 8, 9, 12, 30, 100, 260])))
     if kind == 'valid':
         return codec.frame(framing, unit, valid_pdu(), tid=rng.randrange(65536))
+    if kind == 'service':
+        # a well-formed request for one of the non-data-access services (diagnostics incl. restart,
+        # force listen only, clear counters; file records; device identification; ...)
+        return codec.frame(framing, unit, rng.choice(sc.OPAQUE_REQS), tid=rng.randrange(65536))
     if kind == 'trunc_pdu':
         p = valid_pdu()
         k = rng.randint(1, max(1, len(p) - 1))
@@ -78,7 +82,7 @@ def hostile_item(rng, kind, framing, unit, model, uniq):
 
 def generate(rng, tier, index):
     profile = {'invalid_rate': 0.0, 'opaque_rate': 0.05, 'unknown_unit_rate': 0.0, 'multi_rate': 0.3,
-               'broadcast_rate': 0.0, 'max_conns': 1, 'max_reqs': 4, 'pipeline_rate': 0.0, 'allow_tls': False}
+               'broadcast_rate': 0.0, 'max_conns': 1, 'max_reqs': 4, 'pipeline_rate': 0.0, 'allow_tls': False, 'listen_only': True}
     scn = sc.gen_scenario(rng, profile)      # gives layout, options and a well-behaved connection
     scn['property'] = ID
     kind, framing = scn['frontend'], scn['framing']
@@ -141,6 +145,8 @@ def classify(scn, cls, detail, res=None):
             sig[k] = detail[k]
     if sc.binary_delim(scn, res):
         sig['binary_delim'] = True
+    if sc.listen_only(scn, res):
+        sig['listen_only'] = True
     return sig
 
 
